@@ -215,6 +215,9 @@ impl Monitor for M {
         }
         let endianness = if be { Endianness::Big } else { Endianness::Little };
         for (vi, (class, d)) in variants.iter().enumerate() {
+            // exact-size allocation per payload: reads past the payload end leave the allocation
+            let d: Box<[u8]> = d.clone().into_boxed_slice();
+            let d = &d;
             ctx.eval();
             ctx.mark(vi as u32);
             let got = guarded(|| construct_arguments(endianness, &ts, d));
